@@ -165,7 +165,7 @@ def _translate_combination():
             for beta in (False, True):
                 ev = nptrans.Evaluator({"Fsq": ("q",), "F": ("q",), "S": ("q",), "scale": (), "background": (), "shell_volume": (), "volfrac": ()})
                 ev.assume = {"beta_mode": beta, "self._volfrac_in_p": vp}
-                ev.run(body[i0:i1 + 1])
+                ev.run(body[iS + 1:i1 + 1])        # everything between the S evaluation and final_result (helper variables included)
                 r = ev.env.get("final_result")
                 if r is None or r.axes != ("q",):
                     raise Untranslatable("final_result is not one value per q")
@@ -294,6 +294,29 @@ def main(run):
             if names != expect:
                 run.add(Finding("C07:table:%s@%s" % (pn, sn), "%s@%s: combined parameter table %s differs from the documented order %s" % (pn, sn, names, expect), dict(P=pn, S=sn)))
                 continue
+            # contrast matched (every SLD equal to the solvent's): <F> and <F^2> are exactly zero and the intensity is
+            # the background - with and without the beta approximation
+            slds_ = [p.name for p in pinfo.parameters.call_parameters if p.type == "sld"]
+            if slds_:
+                for bmode in ([0.0, 1.0] if has_beta else [0.0]):
+                    cm = c01.base_pars(pinfo, rng)
+                    for n_ in slds_:
+                        cm[n_] = 2.5
+                    bgc = rng.uniform(0.05, 0.5)
+                    cm.update(scale=rng.uniform(0.3, 2), background=bgc, radius_effective=50.0, volfraction=0.2)
+                    if has_beta:
+                        cm["structure_factor_mode"] = bmode
+                    if pinfo.radius_effective_modes is not None:
+                        cm["radius_effective_mode"] = float(rng.randint(0, len(modes)))
+                    kcm = model.make_kernel([np.array([0.01, 0.05, 0.2])])
+                    try:
+                        gcm = np.asarray(call_kernel(kcm, dict(cm), cutoff=1e-5), "d")
+                    finally:
+                        kcm.release()
+                    evals += 1; stats["contrast_matched"] = stats.get("contrast_matched", 0) + 1
+                    if not np.allclose(gcm, bgc, rtol=1e-12, atol=0):
+                        run.add(Finding("C07:contrast-matched:%s@%s" % (pn, sn), "%s@%s with every SLD equal to the solvent's (structure_factor_mode %g): I(q) = %s, the background is %.6g" % (
+                            os.path.basename(pn), sn, bmode, gcm.tolist(), bgc), dict(P=pn, S=sn, pars=cm)))
             for rep in range(4 if not thorough else 8):
                 dim = "2d" if (oriented and rep % 4 == 3) else "1d"
                 q = [np.array([0.004, 0.02, 0.09, rng.uniform(0.001, 0.3)])] if dim == "1d" else \
